@@ -326,7 +326,7 @@ def handleEops (init : HMap) (ops : List MetaOps.Op) (obs : List String) : Strin
     | some i =>
       let k := ((expected.take (i + 1)).filter (· == "|")).length
       match ops[k - 1]? with
-      | some op => "op" ++ toString k ++ "-" ++ op.label
+      | some op => op.label
       | none => "view"
   (join model, verdict [("entry-api-does-not-panic", obs != ["panic"]),
     ("entry-api-presents-each-entry-in-its-category", catOk),
